@@ -9,6 +9,7 @@ import BqVerif.Proofs.QasmProgram
 import BqVerif.Proofs.QasmWitness
 import BqVerif.Generated.QasmTable
 import BqVerif.Proofs.QasmTableChecks
+import BqVerif.Proofs.QasmNames
 /-! # C17 — OpenQASM 2 import/export preserves the program and agrees with Qiskit
 
 The theorems are about the Lean model of the reader/writer (`BqVerif.Model.Qasm*`), which the
@@ -382,5 +383,27 @@ theorem C17_gate_table_readable_partial :
 theorem C17_gate_table_readable_witness :
     ∀ s ∈ knownUnreadable, ∃ g ∈ libGates, g.kind = "table" ∧ g.base = s ∧ readable g = false := by
   decide
+
+/-! ## C17_definition_names — blocks written as `gate` definitions need names that separate them
+
+The writer names the definition of a `CircuitGate` after the block (`circuitgate_<key>`, today the
+block's hash) and writes each call under that name; the reader keeps definitions in a dict, so a
+later definition of a name replaces an earlier one (`St.customs`, newest first).  For ANY key
+function and any list of blocks written: every call reads back as its own block **iff** the key
+separates the blocks written.  (Seeded change C17-4 made the hash ignore everything after the
+first 99 operations: a legal hash, and exactly a key that does not separate two long blocks.) -/
+
+open BqVerif.QasmNames in
+theorem C17_definition_names {β κ : Type} [DecidableEq β] [DecidableEq κ] (key : β → κ) (defs : List β) :
+    roundTrips key defs = true ↔ ∀ b ∈ defs, ∀ b' ∈ defs, key b = key b' → b = b' :=
+  roundTrips_iff key defs
+
+open BqVerif.QasmNames in
+/-- witness: with a key that looks at the first two operations only, a block and its extension
+    share a name and the call of the first block reads back as the second -/
+theorem C17_definition_names_prefix_key_witness :
+    roundTrips (fun (b : List Nat) => b.take 2) [[1, 2, 3], [1, 2, 4]] = false
+    ∧ resolve (fun (b : List Nat) => b.take 2) [[1, 2, 3], [1, 2, 4]] [1, 2] = some [1, 2, 4]
+    ∧ roundTrips (fun (b : List Nat) => b) [[1, 2, 3], [1, 2, 4]] = true := by decide
 
 end BqVerif.C17
